@@ -13,7 +13,7 @@ MANIFEST = {
             'and only ISO-2022-JP can have pending state; (D2) whole characters only: every byte goes through a linear handle obtained from '
             'a space test covering the whole character (R-HANDLE), and no fetched character is dropped (R-ACCOUNT). That the bytes decode back '
             'to the input (table contents, pointer arithmetic) is not decided. ' 
-            '(R-SINGLEBYTE) a byte the single-byte encoder emits without a table look-up decodes back to the character it was emitted for: the run parameters of all 28 single-byte encodings mirror the decode tables entry by entry.',
+            '(R-SINGLEBYTE) a byte the single-byte encoder emits without a table look-up decodes back to the character it was emitted for: the run parameters of all 28 single-byte encodings mirror the decode tables entry by entry. Also run here (shared rules): R-UTF8ENC (UTF-8 output cut on a character boundary), R-SURR on the encoder side incl. utf_8::convert_utf16_to_utf8*, and C09-D2 write_ncr (an NCR is the decimal scalar value with every digit stored).',
     'note': 'Trusted: rustc MIR, mirx, rule library, the escape table of Encoding Standard §12.2.2 transcribed in rules/r_state.py.',
     'technique': 'typestate/pairing rules over bounded MIR path summaries + handle typestate + dataflow',
 }
@@ -28,4 +28,9 @@ def run(rep, facts, tier):
         nb, ng = r_account.run(rep, f, c, 'R-ACCOUNT', lambda n: 'Encoder::' in n)
         rep.floor('R-ACCOUNT', 'encoder bodies with unit fetches', nb, 14, c)
         r_singlebyte.run(rep, f, c)
+        import r_utf8enc, r_surr, p_c09
+        r_utf8enc.run(rep, f, c)          # UTF-8 output is cut on a character boundary
+        n = r_surr.run(rep, f, c, 'R-SURR', lambda nm: 'Encoder::' in nm or nm.startswith(('handles::Utf16Source', 'handles::Utf8Source', 'utf_8::convert_utf16_to_utf8')))
+        rep.floor('R-SURR', 'surrogate tests on the encoder side', n, 10, c)
+        p_c09.write_ncr(rep, f, c)        # the NCR an unmappable becomes is the decimal scalar value, every digit stored
     return ('other', MANIFEST['text'], [])
